@@ -3,13 +3,25 @@ from checks import mvcc
 
 
 def run(ctx):
+    if ctx.replay:
+        import json, os
+        from checks import skiplist as slc
+        mf = os.path.join(ctx.replay, "meta.json")
+        if os.path.exists(mf) and json.load(open(mf)).get("trace_spec") == "SetLin.tla":
+            slc.setlin(ctx, os.path.join(ctx.replay, "failing-trace.ndjson"), "replay", 1)
+            from checks import writers
+            writers.fix_msg(ctx, None)
+            return ctx.finish()
+        return mvcc.replay(ctx)
     T = ctx.thorough
     ctx.rule = ("M1: TLC exhausts NitroMVCC (invariant C01_SnapshotImmutable: for every open snapshot the visible physical sequence equals "
                 "the view taken at creation and Count() its length) over all histories of the GC family (2 keys, 2 writers, 3 snapshots, "
                 "out-of-order Open/Close, GC lists unlinked in any order) and the iterator family (refresh at every position); "
                 "M3: transitions of the dumped graphs replayed on the real store; M2: seeded random histories in which EVERY open snapshot "
                 "is re-scanned (refresh rates 0..5) and Count() re-read after EVERY event, with released GC lists held and unlinked at "
-                "arbitrary later points; TLC validates each scan against the view")
+                "arbitrary later points; TLC validates each scan against the view; plus free-running churn runs: Visitor / refreshing iterators / "
+                "backup+restore loop over a pinned snapshot while two writers insert and delete neighbouring keys in the current epoch, every "
+                "pass compared with the view by TLC (SetLin.tla)")
     gcinv = [i for i in mvcc.MC_INVS["gc"] if i != "C10_VisitPartition"]
     m1 = [("c01_gc", mvcc.mc_cfg([1, 2], [1], ["w1", "w2"], 3, 1, [], [], 0, gcinv)),
           ("c01_iter", mvcc.mc_cfg([1, 2], [1], ["w1"], 2, 1, [0, 1, 2], [1], 0, mvcc.MC_INVS["iter"]))]
@@ -20,4 +32,21 @@ def run(ctx):
     if T:
         g.append(("c01_graph_2w", mvcc.mc_cfg([1, 2], [1], ["w1", "w2"], 2, 2, [], [], 0, gcinv), 2))
     randoms = [("C01 histories with per-event re-scan of every open snapshot", 3000 if T else 300, 150 if T else 120, "snap", 8)]
-    return mvcc.run_family(ctx, m1, g, 400, randoms)
+    mvcc.run_family(ctx, m1, g, 400, randoms)
+    # free-running readers of a pinned snapshot against same-epoch churn (SetLin.tla: every pass equals the view)
+    if not ctx.violations or T:
+        import os
+        import vlib
+        from checks import writers
+        n, secs = (20, 3) if T else (3, 2)
+        tr, ns, crashes = writers.run_wr(ctx, "c01_churn", vlib.seed() * 10 + 5, n, mm=1, nomem=True,
+                                         extra=["-churn", secs, "-backup", os.path.join(ctx.wd, "churnbk")])
+        npass = sum(1 for l in open(tr) if '"e":"RScan"' in l or '"e":"Restore"' in l)
+        ctx.extra["churn_reader_passes"] = npass
+        if crashes:
+            vlib.log("note: %d child crashes on freed memory (judged by C04's check)" % crashes)
+        writers.judge_setlin(ctx, tr, "%d visitor / iterator / backup passes over a pinned snapshot against same-epoch churn" % npass, ns)
+        writers.fix_msg(ctx, tr)
+        ctx.traces += ns
+        os.remove(tr)
+    return ctx.finish()
